@@ -241,7 +241,14 @@ func (l *Life) Step() string {
 				continue
 			}
 			if p := w.ProviderByAddr(sh.Sp); p != nil {
-				w.Complete(p.Acct, nil, oid, sh.Size_)
+				ce := w.Complete(p.Acct, nil, oid, sh.Size_)
+				if ce.OK && r.Intn(3) == 0 {
+					// the provider now tries to withdraw capacity that backs the shard it just stored
+					if pl, ok := w.Cur.Pledges[p.Acct.Addr.String()]; ok {
+						free := pl.TotalStorage - pl.UsedStorage
+						w.RemoveVstorage(p.Acct, []uint64{uint64(free) + 1_000_000, uint64(pl.TotalStorage), uint64(free) + uint64(sh.Size_)}[r.Intn(3)])
+					}
+				}
 				if r.Intn(4) == 0 {
 					w.Advance(int64(1 + r.Intn(30)))
 				}
@@ -343,7 +350,24 @@ func (l *Life) Step() string {
 		w.AddVstorage(sp.Acct, []uint64{1, 999_999, 1_000_000, 1_000_001, 7_500_000}[r.Intn(5)])
 	case "removev":
 		sp := l.SP[r.Intn(len(l.SP))]
-		w.RemoveVstorage(sp.Acct, []uint64{1, 999_999, 1_000_000, 1_000_001, 2_500_001, 60_000_000}[r.Intn(6)])
+		size := []uint64{1, 999_999, 1_000_000, 1_000_001, 2_500_001, 60_000_000}[r.Intn(6)]
+		if pl, ok := w.Cur.Pledges[sp.Acct.Addr.String()]; ok && r.Intn(2) == 0 {
+			// sizes relative to the provider's own books: exactly the free capacity, a unit more, everything pledged
+			free := pl.TotalStorage - pl.UsedStorage
+			switch r.Intn(4) {
+			case 0:
+				size = uint64(free)
+			case 1:
+				size = uint64(free) + 1_000_000
+			case 2:
+				size = uint64(pl.TotalStorage)
+			case 3:
+				if free > 2_000_000 {
+					size = uint64(free) - 1_000_000 + 1
+				}
+			}
+		}
+		w.RemoveVstorage(sp.Acct, size)
 	case "reset":
 		sp := l.SP[r.Intn(len(l.SP))]
 		w.ResetNode(sp.Acct, world.StatusAll, nil, "")
